@@ -328,3 +328,7 @@ class ErrTap(object):
 
     def last(self):
         return self.handlers[-1] if self.handlers else None
+
+    def first(self):
+        """the handler created by the validation this tap was installed for (a re-entrant validation creates later ones)"""
+        return self.handlers[0] if self.handlers else None
